@@ -4,7 +4,7 @@ from fractions import Fraction
 import z3
 
 from .values import (Poly, LinComb, BlockVec, SeqVal, Ref, HeapObj, Closure, UFunc, ModuleRef, BoundMethod, Opaque,
-                     ExcVal, ConcVec, TabVal, fresh_name, is_z3, to_z3, to_real, to_bool, to_poly)
+                     ExcVal, ConcVec, TabVal, RangeIdx, deps_of, fresh_name, is_z3, to_z3, to_real, to_bool, to_poly)
 
 
 class Havoc(Exception):
@@ -89,9 +89,13 @@ def _pow_int(x, n):
 
 
 def binop(ex, op, a, b, st, ctx):
+    # ---------------- python sets of concrete keys
+    if isinstance(a, (set, frozenset)) and isinstance(b, (set, frozenset)) and op in ("BitOr", "BitAnd", "Sub", "BitXor"):
+        return frozenset({"BitOr": a | b, "BitAnd": a & b, "Sub": a - b, "BitXor": a ^ b}[op])
     # ---------------- opaque / inf propagate
     if isinstance(a, Opaque) or isinstance(b, Opaque):
-        return Opaque("op")
+        da, db = deps_of(a), deps_of(b)
+        return Opaque("op", deps=(da | db) if da is not None and db is not None else None)
     if isinstance(a, InfVal) or isinstance(b, InfVal):
         # +-inf against finite values (A1: every other real-valued quantity is finite): inf +- x = inf, x - inf = -inf, inf * c = sign(c) inf
         # for a concrete non-zero number c; everything else (inf - inf, inf * symbolic, division) is not modelled
@@ -662,6 +666,9 @@ def subscript(ex, v, idx, st, ctx, node=None):
         j = _norm_index(ex, v, idx, st, ctx, node, "load")
         return z3.Select(v.arr, j)
     if _scalar(v):
+        if idx is None and getattr(ex, "newaxis_seq", False) and is_z3(v) and z3.is_real(v):
+            # one-real-per-row view of a trajectory buffer: x[None] is the one-row buffer whose row 0 is x
+            return SeqVal(z3.Store(z3.Array(fresh_name("row"), z3.IntSort(), z3.RealSort()), 0, v), z3.IntVal(1), "Real")
         # element-wise lifting: x[mask] / x[None] / x[...] is the element itself
         if idx is None or idx is Ellipsis or (is_z3(idx) and z3.is_bool(idx)) or isinstance(idx, bool):
             return v
@@ -728,6 +735,11 @@ def store(ex, base, idx, v, st, ctx, node=None):
             hook(ex, st, ctx, base, idx, v)
             return IN_PLACE
         raise Havoc("store into object")
+    if isinstance(base, SeqVal) and isinstance(idx, RangeIdx) and _scalar(v):
+        # x[arange(lo, hi)] = v (numpy integer-array assignment, indices inside the array): every position lo <= i < hi becomes v
+        i = z3.Int(fresh_name("i"))
+        val = to_real(v) if base.elem == "Real" else to_z3(v)
+        return SeqVal(z3.Lambda([i], z3.If(z3.And(to_z3(idx.lo) <= i, i < to_z3(idx.hi)), val, z3.Select(base.arr, i))), base.length, base.elem)
     if isinstance(base, SeqVal):
         if isinstance(idx, (slice, tuple)) or (is_z3(idx) and z3.is_bool(idx)):
             raise Havoc("slice/mask store into sequence")
@@ -774,6 +786,12 @@ def method(ex, v, name, args, kwargs, st, ctx):
                     if _struct_eq(x, args[0], st) is True:
                         return i
                 raise Havoc("list.index")
+        if o.kind == "dictview" and name == "update" and len(args) == 1 and isinstance(args[0], Ref) and st.obj(args[0]).kind == "dictview" and not kwargs:
+            # a.__dict__.update(b.__dict__): every instance attribute of b is bound on a (same values, no copies)
+            src_t, dst_t = st.obj(args[0]).fields["target"], o.fields["target"]
+            if isinstance(src_t, Ref) and isinstance(dst_t, Ref):
+                st.obj(dst_t).fields.update(st.obj(src_t).fields)
+                return None
         if o.kind == "matrix" and name in ("reshape", "to", "astype"):
             return v
         if o.kind == "dict":
@@ -813,6 +831,11 @@ def method(ex, v, name, args, kwargs, st, ctx):
             return TABLE["D.ar_numpy." + name](ex, st, ctx, [v], {})
     if isinstance(v, ConcVec) and name in ("reshape", "copy", "astype", "to"):
         return v
+    if isinstance(v, ConcVec) and name in ("all", "any") and not args:
+        items = list(v.items)
+        if all(isinstance(i, bool) for i in items):
+            return all(items) if name == "all" else any(items)
+        return (z3.And if name == "all" else z3.Or)(*[to_bool(i) for i in items])
     if isinstance(v, SeqVal):
         if name in ("copy", "astype", "to", "clone"):
             return v
@@ -846,7 +869,7 @@ def _unary(fn):
     def h(ex, st, ctx, args, kwargs):
         v = args[0]
         if isinstance(v, Opaque):
-            return Opaque("u")
+            return Opaque("u", deps=v.deps)
         return fn(ex, v, ctx)
     return h
 
@@ -888,9 +911,26 @@ TABLE["D.ar_numpy.sign"] = _unary(_sign)
 
 
 @reg("D.ar_numpy.asarray", "D.ar_numpy.copy", "D.ar_numpy.clone", "D.ar_numpy.to_numpy", "D.ar_numpy.atleast_1d",
-     "D.ar_numpy.astype", "D.astype", "numpy.asarray", "float", "D.ar_numpy.array", "D.ar_numpy.squeeze")
+     "D.astype", "numpy.asarray", "float", "D.ar_numpy.array", "D.ar_numpy.squeeze")
 def _identity(ex, st, ctx, args, kwargs):
     return args[0]
+
+
+@reg("D.ar_numpy.astype")
+def _astype(ex, st, ctx, args, kwargs):
+    v = args[0]
+    if len(args) > 1 and args[1] == "bool" and isinstance(v, SeqVal):
+        # conversion to bool: an entry is True (1) exactly when it is non-zero
+        i = z3.Int(fresh_name("i"))
+        return SeqVal(z3.Lambda([i], z3.If(z3.Select(v.arr, i) != 0, z3.RealVal(1), z3.RealVal(0))), v.length, v.elem)
+    return v
+
+
+@reg("D.ar_numpy.arange")
+def _arange(ex, st, ctx, args, kwargs):
+    if len(args) == 2 and all((isinstance(a, int) and not isinstance(a, bool)) or (is_z3(a) and z3.is_int(a)) for a in args):
+        return RangeIdx(args[0], args[1])
+    raise Havoc("arange")
 
 
 @reg("D.epsilon")
@@ -1054,12 +1094,15 @@ def _minmax(is_min):
             if isinstance(v, Opaque):
                 if getattr(ex, "opaque_shapes", False):
                     return z3.Real(("min_" if is_min else "max_") + v.tag)       # a real reduction of an unmodelled array: some real, the same each time
-                return Opaque("red")
+                return Opaque("red", deps=v.deps)
+            if isinstance(v, (LinComb, BlockVec)):
+                return Opaque("red", deps=deps_of(v))          # a reduction of a vector the executor keeps symbolic: some function of it
             items = ex.iterate(v, st, ctx)
         else:
             items = list(args)
         if any(isinstance(i, Opaque) for i in items):
-            return Opaque("minmax")
+            ds = [deps_of(i) for i in items]
+            return Opaque("minmax", deps=frozenset().union(*ds) if all(d is not None for d in ds) else None)
         # +-inf against finite reals (A1): min(x, +inf) == x, max(x, -inf) == x
         finite = [i for i in items if not isinstance(i, InfVal)]
         infs = [i for i in items if isinstance(i, InfVal)]
@@ -1264,7 +1307,12 @@ def _str(ex, st, ctx, args, kwargs):
 
 @reg("callable")
 def _callable(ex, st, ctx, args, kwargs):
-    return isinstance(args[0], (Closure, UFunc, BoundMethod, ModuleRef))
+    v = args[0]
+    if isinstance(v, Ref) and st.obj(v).kind == "object":
+        o = st.obj(v)
+        # an instance is callable when its class defines __call__ (looked up in the real source)
+        return ex.src.find_method(o.cls, "__call__") is not None or ("%s.__call__" % o.cls) in ex.call_hooks or ("%s.__call__" % o.cls) in ex.contracts
+    return isinstance(v, (Closure, UFunc, BoundMethod, ModuleRef))
 
 
 @reg("hasattr")
